@@ -152,21 +152,21 @@ func VerifC16DeepDiamond() {
 // VerifC16NameKernels*: the identifier conversion helpers of all generators never
 // panic, for every identifier-like name (incl. doubled / leading / trailing separators).
 func VerifC16NameKernelsSnake() {
-	snake := verif.StringIn("snake", verif.L(4), "ab_")
+	snake := verif.StringIn("snake", 4, "ab_")
 	_ = tscommon.SnakeToLowerCamel(snake)
 	_ = clientgen.VerifSnakeToUpperCamel(snake)
 	verif.Reach("C16/kernels/snake")
 }
 
 func VerifC16NameKernelsHeader() {
-	header := verif.StringIn("header", verif.L(5), "aAX-")
+	header := verif.StringIn("header", 5, "aAX-")
 	_ = tscommon.HeaderNameToPropertyName(header)
 	_ = clientgen.VerifHeaderNameToFuncName(header)
 	verif.Reach("C16/kernels/header")
 }
 
 func VerifC16NameKernelsCamel() {
-	camel := verif.StringIn("camel", verif.L(4), "aAZ0")
+	camel := verif.StringIn("camel", 4, "aAZ0")
 	_ = camelToSnake(camel)
 	_ = annotations.LowerFirst(camel)
 	verif.Reach("C16/kernels/camel")
